@@ -171,6 +171,9 @@ def parse_shard(args):
                 out.append(rec)
                 continue
         # (3) renderings for the compiler
+        if d.tname.endswith("_complex"):
+            out.append(rec)  # 'float complex' is C99, the C++ rendering is std::complex<float>: no common compiler
+            continue
         try:
             name = "r_X"
             skip_fn = d.params is not None and any(has_targs(p) for p in node.params)
